@@ -87,11 +87,13 @@ pub fn const_json<'tcx>(tcx: TyCtxt<'tcx>, c: &Const<'tcx>, owner: DefId) -> J {
                 ("k", J::s("unevaluated")),
                 ("def", J::s(def_path(tcx, u.def))),
                 ("args", J::arr(u.args.iter().map(|a| J::s(ty::print::with_no_trimmed_paths!(format!("{}", a)))))),
-                ("promoted", J::Bool(u.promoted.is_some())),
+                ("promoted", J::opt(u.promoted.map(|p| J::n(p.index())))),
                 ("ty", J::s(ty_str(*t))),
             ];
             let tenv = TypingEnv::post_analysis(tcx, owner);
-            if let Ok(v) = tcx.const_eval_resolve(tenv, *u, rustc_span::DUMMY_SP) {
+            if u.promoted.is_some() {
+                // promoted bodies are exported with the function ("promoted"); rules evaluate them symbolically
+            } else if let Ok(v) = tcx.const_eval_resolve(tenv, *u, rustc_span::DUMMY_SP) {
                 let inner = const_json(tcx, &Const::Val(v, *t), owner);
                 fields.push(("value", inner));
             }
@@ -486,6 +488,20 @@ pub fn fn_json<'tcx>(tcx: TyCtxt<'tcx>, ldid: LocalDefId, eff_pub: bool) -> J {
         })),
     ));
     f.push(("blocks", J::arr(body.basic_blocks.iter_enumerated().map(|(bb, data)| block_json(tcx, body, bb, data, did)))));
+    let promoted = tcx.promoted_mir(did);
+    f.push((
+        "promoted",
+        J::arr(promoted.iter_enumerated().map(|(pi, pb)| {
+            J::obj(vec![
+                ("idx", J::n(pi.index())),
+                (
+                    "locals",
+                    J::arr(pb.local_decls.iter_enumerated().map(|(l, d)| J::obj(vec![("id", J::n(l.index())), ("ty", J::s(ty_str(d.ty)))]))),
+                ),
+                ("blocks", J::arr(pb.basic_blocks.iter_enumerated().map(|(bb, data)| block_json(tcx, pb, bb, data, did)))),
+            ])
+        })),
+    ));
     J::obj(f)
 }
 
